@@ -14,6 +14,7 @@ transition of its real episode: `done`, or cut by `truncate_last_trajectory`). S
 every operation sequence — episodes of any length, wrapping the ring or longer than it.
 -/
 import SB3Verif.Lemmas.Her
+import SB3Verif.Props.C16C04
 
 namespace SB3Verif.C16
 
@@ -224,6 +225,50 @@ about reachable states). -/
 theorem run_snoc (hTT : Bool) (cap : Nat) (ops : List COp) (op : COp) :
     (runG hTT cap (ops ++ [op])).1 = (runG hTT cap ops).1.step hTT op := by
   simp [runG, List.foldl_append, stepG]
+
+/-! ### End to end with the off-policy collection of C04 (re-exported from `Props/C16C04.lean`) -/
+
+section EndToEnd
+
+open SB3Verif.OffPolicy SB3Verif.Lemmas.OffPolicyHer
+
+/-- see `C16C04.her_sample_is_env_hindsight`: for every off-policy run without `VecNormalize` (any `n_envs`,
+episode scripts, `train_freq` / `learn()` split) feeding a HER buffer of any capacity, every real sample is a
+sub-environment's own transition of a finished, not overwritten ENVIRONMENT episode, and every virtual sample keeps
+such a transition and takes its new goal from the next achieved goal of a transition of the same environment
+episode (`future`: at or after it, `final`: the last one), with reward `compute_reward(next achieved, new goal)`. -/
+theorem her_after_offpolicy_collection {α : Type} [Add α] [Sub α] [Mul α] [Div α] [Neg α] [One α] [LT α]
+    [DecidableLT α] (cr : Nat → Nat → Int) (T : HTagging α) (hTT : Bool) (cap : Nat)
+    (cfg : Cfg α) (calls : List (Call α)) (hv : cfg.vecNormalize = false)
+    (hwf : ∀ c ∈ calls, c.wf cfg = true) (hcap : 0 < cap) (hn : 0 < cfg.nEnvs) (strat : Strategy)
+    (nGoal batch : Nat) (draws goals : List Nat)
+    (hok : (Her.run cap cfg.nEnvs hTT (toOps T (run cfg calls).st.buffer)).sampleOk strat nGoal batch draws goals
+      = true) :
+    ∃ real virt,
+      (Her.run cap cfg.nEnvs hTT (toOps T (run cfg calls).st.buffer)).sampleOut cr strat nGoal batch draws goals
+        = real ++ virt ∧
+      real.length = batch - nbVirtual nGoal batch ∧ virt.length = nbVirtual nGoal batch ∧
+      (∀ x, x ∈ real → ∃ e a ee t b, e < cfg.nEnvs ∧ EnvTransAt (run cfg calls) e a t b ∧
+        (run cfg calls).w.log.length ≤ a + cap ∧ EnvEndsAt (run cfg calls).w.log e a ee ∧
+        x = realOf (envTrans T hTT cfg.post t b)) ∧
+      (∀ x, x ∈ virt → ∃ e a a' ee t b t' b', e < cfg.nEnvs ∧
+        EnvTransAt (run cfg calls) e a t b ∧ EnvTransAt (run cfg calls) e a' t' b' ∧
+        (run cfg calls).w.log.length ≤ a + cap ∧ (run cfg calls).w.log.length ≤ a' + cap ∧
+        EnvEndsAt (run cfg calls).w.log e a ee ∧ EnvEndsAt (run cfg calls).w.log e a' ee ∧
+        (strat = .future → a ≤ a') ∧ (strat = .final → a' = ee) ∧
+        x = relabelOf cr (envTrans T hTT cfg.post t b) (envTrans T hTT cfg.post t' b')) :=
+  C16C04.her_sample_is_env_hindsight cr T hTT cap cfg calls hv hwf hcap hn strat nGoal batch draws goals hok
+
+/-- see `C16C04.her_episodes_are_env_episodes`: the episode boundaries of the HER segments are the environment's
+own `terminated ∨ truncated` steps. -/
+theorem her_episodes_are_env_episodes {α : Type} [Add α] [Sub α] [Mul α] [Div α] [Neg α] [One α] [LT α]
+    [DecidableLT α] (T : HTagging α) (hTT : Bool) (cap : Nat) (cfg : Cfg α)
+    (calls : List (Call α)) (hv : cfg.vecNormalize = false) (hwf : ∀ c ∈ calls, c.wf cfg = true)
+    (e a ee : Nat) (he : e < cfg.nEnvs) :
+    endsAt (ghostOf hTT cap (toOps T (run cfg calls).st.buffer) e) a ee ↔ EnvEndsAt (run cfg calls).w.log e a ee :=
+  C16C04.her_episodes_are_env_episodes T hTT cap cfg calls hv hwf e a ee he
+
+end EndToEnd
 
 /-! ### Non-vacuity: concrete histories meet the hypotheses above -/
 
